@@ -26,6 +26,7 @@ RULE = ("lattice: every 2-D grid {1..4}^2 and 3-D grid {1..3}^3 (one-layer domai
         "2-long forms in 2-D; strings sign-before, sign-after, no sign, upper case) against the unit-vector form. A "
         "point is non-trivial if the domain has at least two layers in print direction (otherwise the filter is the "
         "identity); distinct by (grid, nsampling, parameters, direction, family, chunk)")
+RULE += " Extended in seeding rounds 6-7:  designs given as int64/bool/uint8/float32 (first call or after a double-precision call), valid calls after a rejected one, the direction array neither modified nor followed."
 ASSUMPTIONS = [
     "element numbering is x-fastest as documented for DomainDefinition (verified separately by C13)",
     "the paper formulas (P-Q smooth maximum with the nominal number of supports, eps smooth minimum) are the meaning of "
